@@ -71,6 +71,22 @@ def exc_matches(raised_name, handler_name):
     return bool(c and handler_name in c.bases)
 
 
+_SIGS = None
+
+
+def _loop_signature(qual, ordinal):
+    global _SIGS
+    if _SIGS is None:
+        import json
+        import os
+        try:
+            with open(os.path.join(os.path.dirname(os.path.abspath(__file__)), "loop_signatures.json")) as f:
+                _SIGS = json.load(f)
+        except OSError:
+            _SIGS = {}
+    return _SIGS.get(f"{qual}#{ordinal}")
+
+
 class LoopRule:
     """Inductive-invariant rule for a loop with a symbolic trip count (sidecar contract).
 
@@ -541,6 +557,24 @@ class Interp:
         missing = [nm for nm in rule.modifies if nm not in mods and nm not in fr.vars]
         if missing:
             raise OutOfReach(f"loop rule for {qual} loop {ordinal} refers to variable(s) {missing} that the code no longer has")
+
+        # a rule may say which loop it was written for (loop variable, iterated expression, exactly which names the body assigns): when the code
+        # was restructured so that this ordinal is another loop, the rule does not apply - undecided, never a refutation, and in particular a
+        # closed-form (skip_body) rule is never used for a loop whose body it does not describe
+        exp = getattr(rule, "expects", None)
+        if exp is None:
+            sig = _loop_signature(qual, ordinal)       # recorded when the sidecar rules were written (tools_loop_signatures.py)
+            if sig:
+                n_loops = len([x for x in ast.walk(fr.fn.node) if isinstance(x, (ast.For, ast.While))])
+                exp = {"target": sig["target"]}
+                if n_loops != sig.get("loops_in_function", n_loops):
+                    raise OutOfReach(f"{qual} has {n_loops} loops, the sidecar rules were written for {sig['loops_in_function']}: they do not apply to the restructured function")
+        if exp:
+            tgt = (s.target.id if isinstance(s.target, ast.Name) else ast.unparse(s.target)) if isinstance(s, ast.For) else None
+            src = ast.unparse(s.iter if isinstance(s, ast.For) else s.test).replace(" ", "")
+            own = mods - ({tgt} if tgt else set())
+            if ("target" in exp and exp["target"] != tgt) or ("iter" in exp and exp["iter"].replace(" ", "") != src) or ("assigns" in exp and set(exp["assigns"]) != own):
+                raise OutOfReach(f"loop rule for {qual} loop {ordinal} was written for another loop (expected {exp}, found target={tgt}, iter={src}, assigns={sorted(own)})")
 
         def scrub():
             # variables assigned in the body but not described by the invariant are unknown afterwards
